@@ -36,6 +36,85 @@ pub proof fn lemma_proper_prefix_rejected(b: Seq<u8>, k: int)
 // (Verus rejects the enum cast in a const initialiser, R8); they are checked against the IANA numbers, and for pairwise
 // distinctness, by the complete Kani harness `tag_consts` on the real crate.  The generic tagged methods are verified
 // against `Self::TAG` in common::TaggedCborSerializable.
+// ---- C01: every value obtained from decoding meets the (only) precondition of the to-be-signed / MAC / AAD helpers
+// that is not a documented panic condition: its protected headers are serialisable because their wire bytes were kept.
+pub proof fn lemma_decoded_protected_is_encodable(v: Value, d: nat, p: ProtectedHeader)
+    requires crate::header::prot_res(v, d, p),
+    ensures crate::header::prot_encodable(p), p.original_data is Some,
+{}
+pub proof fn lemma_decoded_messages_meet_helper_preconditions(v: Value)
+    ensures
+        forall |x: CoseSign1| crate::sign::sign1_res(v, x) ==> crate::header::prot_encodable(x.protected),
+        forall |x: CoseMac0| crate::mac::mac0_res(v, x) ==> crate::header::prot_encodable(x.protected),
+        forall |x: CoseMac| crate::mac::mac_res(v, x) ==> crate::header::prot_encodable(x.protected),
+        forall |x: CoseEncrypt0| crate::encrypt::encrypt0_res(v, x) ==> crate::header::prot_encodable(x.protected),
+        forall |x: CoseEncrypt| crate::encrypt::encrypt_res(v, x) ==> crate::header::prot_encodable(x.protected),
+        forall |x: CoseRecipient| crate::encrypt::recipient_res(v, x) ==> crate::header::prot_encodable(x.protected),
+        forall |x: CoseSign, i: int| crate::sign::sign_res(v, x) && 0 <= i < x.signatures@.len() ==>
+            crate::header::prot_encodable(x.protected) && crate::header::prot_encodable((#[trigger] x.signatures@[i]).protected),
+{
+    assert forall |x: CoseSign, i: int| crate::sign::sign_res(v, x) && 0 <= i < x.signatures@.len() implies
+            crate::header::prot_encodable(x.protected) && crate::header::prot_encodable((#[trigger] x.signatures@[i]).protected) by {
+        assert(crate::header::sig_res(arr_of(arr_of(v)[3])[i], 0, x.signatures@[i]));
+    }
+}
+// ---- C07 (first step) / C01: every decoded message encodes successfully (its to_cbor_value returns Ok)
+pub proof fn lemma_decoded_recipient_encodable(v: Value, x: CoseRecipient)
+    requires crate::encrypt::recipient_ok(v), crate::encrypt::recipient_res(v, x),
+    ensures crate::encrypt::recipient_encodable(x),
+    decreases v, 1nat
+{
+    crate::header::lemma_decoded_header_encodable(arr_of(v)[1], 0, x.unprotected);
+    if arr_of(v).len() == 4 { lemma_arr_elem_decreases(v, 3); lemma_decoded_recipients_encodable(arr_of(v)[3], x.recipients@); }
+}
+pub proof fn lemma_decoded_recipients_encodable(v: Value, s: Seq<CoseRecipient>)
+    requires crate::encrypt::recipients_ok(v), crate::encrypt::recipients_res(v, s),
+    ensures crate::encrypt::recipients_encodable(s),
+    decreases v, 0nat
+{
+    assert forall |j: int| 0 <= j < s.len() implies crate::encrypt::recipient_encodable(#[trigger] s[j]) by {
+        lemma_arr_elem_decreases(v, j);
+        lemma_decoded_recipient_encodable(arr_of(v)[j], s[j]);
+    }
+}
+pub proof fn lemma_decoded_messages_encodable(v: Value)
+    ensures
+        forall |x: CoseSign1| crate::sign::sign1_ok(v) && crate::sign::sign1_res(v, x) ==> crate::sign::sign1_encodable(x),
+        forall |x: CoseSign| crate::sign::sign_ok(v) && crate::sign::sign_res(v, x) ==> crate::sign::sign_encodable(x),
+        forall |x: CoseMac0| crate::mac::mac0_ok(v) && crate::mac::mac0_res(v, x) ==> crate::mac::mac0_encodable(x),
+        forall |x: CoseMac| crate::mac::mac_ok(v) && crate::mac::mac_res(v, x) ==> crate::mac::mac_encodable(x),
+        forall |x: CoseEncrypt0| crate::encrypt::encrypt0_ok(v) && crate::encrypt::encrypt0_res(v, x) ==> crate::encrypt::encrypt0_encodable(x),
+        forall |x: CoseEncrypt| crate::encrypt::encrypt_ok(v) && crate::encrypt::encrypt_res(v, x) ==> crate::encrypt::encrypt_encodable(x),
+{
+    assert forall |x: CoseSign1| crate::sign::sign1_ok(v) && crate::sign::sign1_res(v, x) implies crate::sign::sign1_encodable(x) by {
+        crate::header::lemma_decoded_header_encodable(arr_of(v)[1], 0, x.unprotected);
+    }
+    assert forall |x: CoseSign| crate::sign::sign_ok(v) && crate::sign::sign_res(v, x) implies crate::sign::sign_encodable(x) by {
+        crate::header::lemma_decoded_header_encodable(arr_of(v)[1], 0, x.unprotected);
+        let sv = arr_of(v)[3];
+        assert forall |j: int| 0 <= j < x.signatures@.len() implies crate::header::sig_encodable(#[trigger] x.signatures@[j]) by {
+            crate::header::lemma_decoded_sig_encodable(arr_of(sv)[j], 0, x.signatures@[j]);
+        }
+    }
+    assert forall |x: CoseMac0| crate::mac::mac0_ok(v) && crate::mac::mac0_res(v, x) implies crate::mac::mac0_encodable(x) by {
+        crate::header::lemma_decoded_header_encodable(arr_of(v)[1], 0, x.unprotected);
+    }
+    assert forall |x: CoseMac| crate::mac::mac_ok(v) && crate::mac::mac_res(v, x) implies crate::mac::mac_encodable(x) by {
+        crate::header::lemma_decoded_header_encodable(arr_of(v)[1], 0, x.unprotected);
+        lemma_decoded_recipients_encodable(arr_of(v)[4], x.recipients@);
+    }
+    assert forall |x: CoseEncrypt0| crate::encrypt::encrypt0_ok(v) && crate::encrypt::encrypt0_res(v, x) implies crate::encrypt::encrypt0_encodable(x) by {
+        crate::header::lemma_decoded_header_encodable(arr_of(v)[1], 0, x.unprotected);
+    }
+    assert forall |x: CoseEncrypt| crate::encrypt::encrypt_ok(v) && crate::encrypt::encrypt_res(v, x) implies crate::encrypt::encrypt_encodable(x) by {
+        crate::header::lemma_decoded_header_encodable(arr_of(v)[1], 0, x.unprotected);
+        lemma_decoded_recipients_encodable(arr_of(v)[3], x.recipients@);
+    }
+}
+/// the nesting limit the termination measure and the acceptance predicates use is the crate's constant
+pub(crate) proof fn lemma_nesting_limit()
+    ensures crate::header::max_nest() == crate::header::MAX_HEADER_NESTING as nat, crate::header::max_nest() == 16,
+{}
 /// untagged decoding of the six message types rejects every tagged item (they all demand an array)
 pub proof fn lemma_untagged_rejects_tag(v: Value)
     requires v is Tag,
